@@ -2,7 +2,7 @@
    Statements only (axiom-free); Model/Chunk.v, Proofs/ChunkProofs.v.  What these theorems do NOT cover is named in the manifest:
    dask's own graph machinery and schedulers, thread safety of the numeric kernels. *)
 From Coq Require Import List Arith.
-From PB Require Import Model.Chunk Proofs.ChunkProofs.
+From PB Require Import Model.Chunk Proofs.ChunkProofs Gen.GenDask Proofs.DaskGen.
 Import ListNotations.
 
 (* for EVERY split of the sample-shape columns into blocks and EVERY schedule that runs each block's task at least once (any
@@ -27,6 +27,15 @@ Proof. exact compute_counts. Qed.
 Example C09_witness :     (* 5 columns, chunks (2, 1, 2), tasks run in the order 2, 0, 2, 1 *)
   compute nat nat (map S) (build nat [2; 1; 2] [[1]; [2; 3]; []; [4]; [5; 6]]) [2; 0; 2; 1] = ([[2]; [3; 4]; []; [5]; [6; 7]], 4).
 Proof. reflexivity. Qed.
+
+(* tie to the source (T15): the statements the chunk model stands for are pinned as syntax trees and re-read on every run: the
+   signal_transform wrapper is one pure task per block (da.map_blocks of the SAME function the NumPy branch applies to the whole array),
+   and compute / persist / to_dask_array / rechunk return like(self, <the same data in another container>) *)
+Theorem C09_generated_glue :
+  gen_signal_transform_is_map_blocks = true /\ gen_compute_changes_only_the_container = true /\
+  gen_persist_changes_only_the_container = true /\ gen_to_dask_array_changes_only_the_container = true /\
+  gen_rechunk_changes_only_the_container = true.
+Proof. exact dask_glue_generated. Qed.
 
 Print Assumptions C09_schedule_independent.
 Print Assumptions C09_elementwise.
